@@ -1380,3 +1380,153 @@ Proof.
     { apply zsum_In_le; [exact Hall|]. apply in_map_iff. exists fs. split; [reflexivity|exact Hin]. }
     pose proof (coeff_sum_nonneg fs). nia.
 Qed.
+
+(* ================================================================ prefix-freeness: truncated / extended encodings (C13) *)
+Lemma app_eq_len {A} (a1 a2 b1 b2 : list A) : zlen a1 = zlen a2 -> a1 ++ b1 = a2 ++ b2 -> a1 = a2 /\ b1 = b2.
+Proof.
+  intros Hl H. pose proof (f_equal (ztake (zlen a1)) H) as H1. pose proof (f_equal (zdrop (zlen a1)) H) as H2.
+  rewrite ztake_app_exact in H1. rewrite zdrop_app_exact in H2. rewrite Hl in H1, H2.
+  rewrite ztake_app_exact in H1. rewrite zdrop_app_exact in H2. split; assumption.
+Qed.
+
+Lemma cons_inj {A} (a b : A) l m : a :: l = b :: m -> a = b /\ l = m.
+Proof. intros H. inversion H. split; reflexivity. Qed.
+
+Lemma app_same_len_nil {A} (a b x : list A) : zlen a = zlen b -> a = b ++ x -> x = [].
+Proof. intros Hl H. apply zlen_zero_nil. rewrite H, zlen_app in Hl. lia. Qed.
+
+Definition prefix_free_at (t : ty) : Prop :=
+  forall v v' x, typed t v -> typed t v' -> encode t v' = encode t v ++ x -> x = [].
+
+Lemma static_prefix_free t n : static_length t = Some n -> prefix_free_at t.
+Proof.
+  intros Hn v v' x Hv Hv' H. eapply app_same_len_nil; [|exact H].
+  rewrite (static_len t n v' Hn Hv'), (static_len t n v Hn Hv). reflexivity.
+Qed.
+
+Lemma enc_fields_prefix_free ts : forall vs vs' x, Forall2 typed ts vs -> Forall2 typed ts vs' ->
+  enc_fields (encs ts) vs' = enc_fields (encs ts) vs ++ x -> x = [].
+Proof.
+  induction ts as [|t ts IH]; intros vs vs' x HT HT' H.
+  - inversion HT; subst. inversion HT'; subst. cbn in H. symmetry. exact H.
+  - inversion HT as [|? v ? vr Hv Hr]; subst. inversion HT' as [|? v' ? vr' Hv' Hr']; subst.
+    cbn [encs map enc_fields] in H. fold (encs ts) in H. rewrite <- app_assoc in H.
+    destruct (static_length t) as [a|] eqn:Ea; cbn [with_prefix] in H.
+    + apply app_eq_len in H; [|rewrite (static_len t a v' Ea Hv'), (static_len t a v Ea Hv); reflexivity].
+      destruct H as [_ H]. exact (IH vr vr' x Hr Hr' H).
+    + cbn [app] in H. apply cons_inj in H. destruct H as [Hlen H]. apply app_eq_len in H; [|exact Hlen]. destruct H as [_ H]. exact (IH vr vr' x Hr Hr' H).
+Qed.
+
+Lemma record_prefix_free ts vs vs' x : Forall2 typed ts vs -> Forall2 typed ts vs' ->
+  enc_fields (rev (encs ts)) (rev vs') = enc_fields (rev (encs ts)) (rev vs) ++ x -> x = [].
+Proof.
+  intros HT HT' H. rewrite encs_rev in H. eapply enc_fields_prefix_free; [| |exact H]; apply Forall2_rev; assumption.
+Qed.
+
+Lemma enc_list_dyn_prefix_free enc : forall l l' x, zlen l = zlen l' ->
+  flat_map (prefixed enc) l' = flat_map (prefixed enc) l ++ x -> x = [].
+Proof.
+  induction l as [|v l IH]; intros l' x Hl H.
+  - cbn [zlen] in Hl. rewrite (zlen_zero_nil l') in H by lia. cbn in H. symmetry. exact H.
+  - destruct l' as [|v' l']; [rewrite zlen_cons in Hl; cbn [zlen] in Hl; pose proof (zlen_nonneg l); lia|].
+    rewrite !zlen_cons in Hl. cbn [flat_map] in H. unfold prefixed at 1 3 in H. cbn [app] in H. rewrite <- app_assoc in H.
+    apply cons_inj in H. destruct H as [Hlen H]. apply app_eq_len in H; [|exact Hlen]. destruct H as [_ H]. eapply IH; [|exact H]. lia.
+Qed.
+
+Lemma enc_list_prefix_free t l l' x : Forall (typed t) l -> Forall (typed t) l' -> zlen l = zlen l' ->
+  enc_list (static_length t) (encode t) l' = enc_list (static_length t) (encode t) l ++ x -> x = [].
+Proof.
+  intros Hall Hall' Hl H. unfold enc_list in H. destruct (static_length t) as [w|] eqn:Ew; cbn [with_prefix] in H.
+  - eapply app_same_len_nil; [|exact H]. rewrite !(zlen_flat_map_const _ w).
+    + rewrite Hl. reflexivity.
+    + eapply Forall_impl; [|exact Hall]. intros a Ha. apply static_len; assumption.
+    + eapply Forall_impl; [|exact Hall']. intros a Ha. apply static_len; assumption.
+  - eapply (enc_list_dyn_prefix_free (encode t)); [exact Hl|exact H].
+Qed.
+
+Theorem prefix_free : forall t, prefix_free_at t.
+Proof.
+  apply ty_nested_ind.
+  1-8: eapply static_prefix_free; reflexivity.
+  - (* Box *) intros t IH v v' x Hv Hv' H. cbn [encode] in H. exact (IH v v' x Hv Hv' H).
+  - (* Option *) intros t IH v v' x Hv Hv' H. apply typed_option in Hv. apply typed_option in Hv'.
+    destruct Hv as [->|(w & -> & Hw)]; destruct Hv' as [->|(w' & -> & Hw')]; cbn [encode app] in H.
+    + apply cons_inj in H. destruct H as [_ H]. symmetry. exact H.
+    + discriminate H.
+    + discriminate H.
+    + apply cons_inj in H. destruct H as [_ H]. exact (IH w w' x Hw Hw' H).
+  - (* Vec *) intros t IH v v' x Hv Hv' H. apply typed_list_vec in Hv. apply typed_list_vec in Hv'.
+    destruct Hv as (l & -> & Hall). destruct Hv' as (l' & -> & Hall'). cbn [encode app] in H. apply cons_inj in H. destruct H as [Hl H].
+    eapply enc_list_prefix_free; [exact Hall|exact Hall'|symmetry; exact Hl|exact H].
+  - (* Array *) intros n t IH v v' x Hv Hv' H. apply typed_list_array in Hv. apply typed_list_array in Hv'.
+    destruct Hv as (l & -> & Hn & Hall). destruct Hv' as (l' & -> & Hn' & Hall'). cbn [encode] in H.
+    eapply enc_list_prefix_free; [exact Hall|exact Hall'|lia|exact H].
+  - (* Tuple *) intros ts IH v v' x Hv Hv' H. apply typed_tuple in Hv. apply typed_tuple in Hv'.
+    destruct Hv as (vs & -> & HT). destruct Hv' as (vs' & -> & HT'). cbn [encode] in H. exact (record_prefix_free _ _ _ _ HT HT' H).
+  - (* Poly *) intros t IH v v' x Hv Hv' H. apply typed_poly in Hv. apply typed_poly in Hv'.
+    destruct Hv as (l & -> & Hall & Hnz). destruct Hv' as (l' & -> & Hall' & Hnz'). cbn [encode] in H.
+    rewrite (strip_zeros_id l Hnz), (strip_zeros_id l' Hnz') in H. cbn [app] in H. apply cons_inj in H. destruct H as [Hlen H].
+    exact (app_same_len_nil _ (zlen l :: enc_list (static_length t) (encode t) l) x Hlen H).
+  - (* U32s *) intros n. eapply static_prefix_free; reflexivity.
+  - (* Struct *) intros ts IH v v' x Hv Hv' H. apply typed_struct in Hv. apply typed_struct in Hv'.
+    destruct Hv as (vs & -> & HT). destruct Hv' as (vs' & -> & HT'). cbn [encode] in H. exact (record_prefix_free _ _ _ _ HT HT' H).
+  - (* Enum *) intros vs IH v v' x Hv Hv' H. apply typed_enum in Hv. apply typed_enum in Hv'.
+    destruct Hv as (d & l & fs & -> & Hd & HT). destruct Hv' as (d' & l' & fs' & -> & Hd' & HT').
+    rewrite (encode_enum vs d l fs Hd), (encode_enum vs d' l' fs' Hd') in H. cbn [app] in H. apply cons_inj in H. destruct H as [Hdd H]. subst d'.
+    rewrite Hd in Hd'. inversion Hd'; subst fs'. exact (record_prefix_free _ _ _ _ HT HT' H).
+Qed.
+
+(* a valid encoding followed by anything is rejected *)
+Theorem strict_extended chk t v x : typed t v -> x <> [] -> short (encode t v ++ x) -> decode chk t (encode t v ++ x) = Err.
+Proof.
+  intros Hv Hx Hs. apply strict; [exact Hs|]. intros v' Hv' He. apply Hx. exact (prefix_free t v v' x Hv Hv' He).
+Qed.
+
+(* a proper prefix of a valid encoding is rejected *)
+Theorem strict_truncated chk t v s x : typed t v -> encode t v = s ++ x -> x <> [] -> short s -> decode chk t s = Err.
+Proof.
+  intros Hv He Hx Hs. apply strict; [exact Hs|]. intros v' Hv' He'. apply Hx. eapply (prefix_free t v' v x); [exact Hv'|exact Hv|].
+  rewrite He, He'. reflexivity.
+Qed.
+
+(* ================================================================ statements with boolean hypotheses (used by props/) *)
+Lemma short_intro s : canon_seq s = true -> zlen s < 2 ^ 32 -> short s.
+Proof. intros H1 H2. split; [apply canon_seq_canon; exact H1|exact H2]. Qed.
+
+Theorem unique_b chk t s v : canon_seq s = true -> decode chk t s = Ok v -> has_type t v = true /\ encode t v = s.
+Proof. intros Hc. apply unique. apply canon_seq_canon. exact Hc. Qed.
+
+Theorem decode_total_b chk t s : canon_seq s = true -> zlen s < 2 ^ 32 -> decode chk t s <> Panic.
+Proof. intros H1 H2. apply decode_total. apply short_intro; assumption. Qed.
+
+Theorem strict_b chk t s : canon_seq s = true -> zlen s < 2 ^ 32 ->
+  (forall v, has_type t v = true -> encode t v <> s) -> decode chk t s = Err.
+Proof. intros H1 H2. apply strict. apply short_intro; assumption. Qed.
+
+Theorem strict_static_length_b chk t n s : static_length t = Some n -> canon_seq s = true -> zlen s < 2 ^ 32 ->
+  zlen s <> n -> decode chk t s = Err.
+Proof. intros Hn H1 H2. apply strict_static_length; [exact Hn|apply short_intro; assumption]. Qed.
+
+Theorem strict_extended_b chk t v x : has_type t v = true -> x <> [] ->
+  canon_seq (encode t v ++ x) = true -> zlen (encode t v ++ x) < 2 ^ 32 -> decode chk t (encode t v ++ x) = Err.
+Proof. intros Hv Hx H1 H2. apply strict_extended; [exact Hv|exact Hx|apply short_intro; assumption]. Qed.
+
+Theorem strict_truncated_b chk t v s x : has_type t v = true -> encode t v = s ++ x -> x <> [] ->
+  canon_seq s = true -> zlen s < 2 ^ 32 -> decode chk t s = Err.
+Proof. intros Hv He Hx H1 H2. eapply strict_truncated; [exact Hv|exact He|exact Hx|apply short_intro; assumption]. Qed.
+
+Theorem decode_injective_b chk t s1 s2 v : canon_seq s1 = true -> canon_seq s2 = true ->
+  decode chk t s1 = Ok v -> decode chk t s2 = Ok v -> s1 = s2.
+Proof. intros H1 H2. apply decode_injective; apply canon_seq_canon; assumption. Qed.
+
+Theorem cost_linear_b t s : no_width0_list t = true -> 0 <= cost t s <= cost_coeff t * (zlen s + 1).
+Proof. intros H. apply (cost_linear t H s). Qed.
+
+Theorem strict_poly_trailing_zero_b chk t l :
+  forallb (has_type t) l = true -> last_nonzero l = false -> zlen (encode (TVec t) (VList l)) < 2 ^ 64 ->
+  decode chk (TPoly t) (zlen (encode (TVec t) (VList l)) :: encode (TVec t) (VList l)) = Err.
+Proof. intros H1 H2 H3. apply strict_poly_trailing_zero; [apply forallb_Forall; exact H1|exact H2|exact H3]. Qed.
+
+(* a length field is never used to allocate: a huge count on a short sequence costs nothing beyond the sequence *)
+Example cost_huge_count : cost (TVec TU64) [4294967296; 1; 2] = 1 /\ decode false (TVec TU64) [4294967296; 1; 2] = Err.
+Proof. split; reflexivity. Qed.
